@@ -157,9 +157,15 @@ class RaggedIndexedArray(RaggedArray):
         c_indices = []
         for d, size in enumerate(self.source().shape):
             if d == d1:
+                # Loop over every instance, including those that
+                # have no elements in the compressed array, so that
+                # the compressed indices stay aligned with the rows
+                # of the uncompressed array.
                 index = np.array(self.get_index())
-                unique = np.unique(index).tolist()
-                c_indices.append([np.where(index == i)[0] for i in unique])
+                n_instances = self.shape[u_dims[0]]
+                c_indices.append(
+                    [np.where(index == i)[0] for i in range(n_instances)]
+                )
             else:
                 if d < d1:
                     c = shapes[d]
